@@ -198,6 +198,23 @@ def run(run):
             t2 = " ".join(ws[:pos] + [stray] + ws[pos:])
             sreqs.append(sqlgen.parse_request("statements", d, t2))
             smeta.append((d, t, t2, stray.strip("'`")))
+        if t.lstrip().upper().startswith(("CREATE TABLE", "ALTER TABLE")):
+            # option-shaped strays (NAME = VALUE, NAME VALUE) behind the column list and at the end: an unknown option must not be skipped
+            ends = sorted(set([len(ws)] + after_close[-1:]))
+            for pos in ends:
+                for stray in ("zq9 = 979797", "zq9='zq9'", "zq9 zq9", "ZQ9=1"):
+                    t2 = " ".join(ws[:pos] + [stray] + ws[pos:])
+                    sreqs.append(sqlgen.parse_request("statements", d, t2))
+                    smeta.append((d, t, t2, "zq9" if "zq9" in stray else "ZQ9"))
+    for d, t in (("MYSQL", "CREATE TABLE t (a INT, b VARCHAR(10)) ENGINE=InnoDB"), ("MYSQL", "CREATE TABLE t (a INT) COMMENT='c' ENGINE=InnoDB DEFAULT CHARSET=utf8"),
+                 ("HIVE", "CREATE TABLE h (a STRING) PARTITIONED BY (dt STRING) STORED AS TEXTFILE"), ("MYSQL", "CREATE TABLE t (a INT)"),
+                 ("MYSQL", "CREATE TABLE t (a INT NOT NULL, PRIMARY KEY (a)) AUTO_INCREMENT=3 ROW_FORMAT=DYNAMIC")):
+        ws = t.split(" ")
+        for pos in sorted({len(ws), ws.index([w for w in ws if w.endswith(")")][-1]) + 1 if any(w.endswith(")") for w in ws) else len(ws)}):
+            for stray in ("zq9 = 979797", "zq9='zq9'", "zq9 zq9", "ZQ9=1", "AVG_ROW_LENGTH=979797", "CHECKSUM=979797"):
+                t2 = " ".join(ws[:pos] + [stray] + ws[pos:])
+                sreqs.append(sqlgen.parse_request("statements", d, t2))
+                smeta.append((d, t, t2, "zq9" if "zq9" in stray else ("ZQ9" if "ZQ9" in stray else "979797")))
     sim = core.run_impl(sreqs)
     smo = core.run_model(sreqs)
     dis += stmt.tie(run, "PARSE stray", sreqs, smo, sim, [m[2] for m in smeta])
@@ -242,7 +259,7 @@ def replay(path):
         acc = []
         atoms(stgen.parse_dump(a[3:]), acc)
         if obj.get("stream") == "stray token":
-            return None if any("zq9" in x or "979797" in x for x in acc) else "stray token accepted without trace"
+            return None if any("zq9" in x.lower() or "979797" in x for x in acc) else "stray token accepted without trace"
         blob = "\x00".join(acc)
         missing = [m for m in obj.get("markers", []) if m not in blob]
         return ("not represented: %s" % missing[:4]) if missing else None
